@@ -223,6 +223,7 @@ theorem pushScalar_phys (ext : Ext) (un : Bytes → String) (hun : ∀ s, un (st
       · rename_i i hix
         obtain ⟨idx', h1, h2⟩ := (bind_ok _ _ _).1 h
         cases h2
+        rw [ctx_eq_ok] at h1
         obtain ⟨val, hc, rfl⟩ := pushScalar_leaf_step h1
         have : val = (i : Int) := by
           simp only [convLeaf, tryInto] at hc
@@ -235,6 +236,7 @@ theorem pushScalar_phys (ext : Ext) (un : Bytes → String) (hun : ∀ s, un (st
         obtain ⟨vals', h1, h2⟩ := (bind_ok _ _ _).1 h
         obtain ⟨idx', h3, h4⟩ := (bind_ok _ _ _).1 h2
         cases h4
+        rw [ctx_eq_ok] at h1 h3
         obtain ⟨val, hc, rfl⟩ := pushScalar_leaf_step h3
         have : val = (index.length : Int) := by
           simp only [convLeaf, tryInto] at hc
